@@ -91,6 +91,7 @@ def stepLine (s : St) (ln : Nat) (line : String) : St := Id.run do
   | "tier" :: _ => return s
   | "stat" :: _ => return s
   | "note" :: _ => return s
+  | "cfg" :: _ => return s.bump "cfg"
   | "done" :: rc :: _ =>
     if rc != "0" then return s.diff ln "harness" s!"exit={rc}" else return s
   | "crash" :: rest => return s.diff ln "crash" (" ".intercalate rest)
